@@ -968,10 +968,6 @@ package go_clipper2
 //@   props C03
 //@   panicfree
 
-//@ func roundToEven
-//@   props C03
-//@   panicfree
-
 //@ func sqr
 //@   props C03
 //@   panicfree
@@ -1047,7 +1043,6 @@ package go_clipper2
 
 //@ func getClosestPtOnSegment
 //@   props C01 C13
-//@   tier B
 //@   requires dom(offPt,29) && dom(seg1,29) && dom(seg2,29)
 //@   ensures [within-box] min(seg1.X, seg2.X) <= result.X && result.X <= max(seg1.X, seg2.X) && min(seg1.Y, seg2.Y) <= result.Y && result.Y <= max(seg1.Y, seg2.Y)
 
@@ -1425,3 +1420,9 @@ package go_clipper2
 //@   ensures [open-flag] ae1.outrec.isOpen == ae1.localMin.IsOpen
 //@   ensures [sides] (ae1.outrec.frontEdge == ae1 && ae1.outrec.backEdge == ae2) || (ae1.outrec.frontEdge == ae2 && ae1.outrec.backEdge == ae1)
 //@   ensures [registered] len(c.outrecList) == old(len(c.outrecList)) + 1 && c.outrecList[len(c.outrecList)-1] == ae1.outrec && ae1.outrec.idx == old(len(c.outrecList))
+
+//@ func roundToEven
+//@   props C01 C13 C03
+//@   requires absI(v) <= 4611686018427387904.0
+//@   ensures [nearest] absI(result - v) <= 0.5
+//@   ensures [integral] isIntegral(result)
